@@ -2745,7 +2745,8 @@ class Interferometer(Decomposition):
 
             for n, expphi in enumerate(R):
                 # local phase shifts
-                q = np.log(expphi).imag if np.abs(expphi - 1) >= _decomposition_tol else 0
+                # (np.angle also handles the real -1 of a real-valued 1x1 matrix, whose np.log is nan)
+                q = np.angle(expphi) if np.abs(expphi - 1) >= _decomposition_tol else 0
                 if not (drop_identity and q == 0):
                     cmds.append(Command(Rgate(np.mod(q, 2 * np.pi)), reg[n]))
 
